@@ -27,6 +27,12 @@ TStatuses  == (201..599) \ {204, 304}
 QFlags     == {2, 3, 128, 255}
 TFlags     == 2..255
 
+ConnectOnly == {<<"connect">>}
+GProtoSets == {<<"connect">>, <<"connect", "grpc">>, <<"grpc">>, <<"rest">>}
+GMethods == {"Query", "Idem", "Plain"}
+GForms == {"connect_get", "connect_post", "grpc", "rest"}
+GCodecSeqs == {<<"proto">>, <<"json">>, <<"text">>, <<"proto", "json">>}
+
 \* ---- thorough tier domains
 TProtoSets == QProtoSets \cup {<<"grpc", "rest">>, <<"grpcweb", "rest">>, <<"connect", "rest">>, <<"grpc", "grpcweb">>,
                                <<"connect", "grpc", "grpcweb", "rest">>}
